@@ -18,7 +18,7 @@ from . import common
 
 env.import_redress()
 
-from redress import AsyncRetry, Budget, Classification, ErrorClass, Retry, RetryExhaustedError  # noqa: E402
+from redress import AsyncPolicy, AsyncRetry, AsyncRetryPolicy, Budget, Classification, ErrorClass, Policy, Retry, RetryExhaustedError, RetryPolicy  # noqa: E402
 
 JOBS = {"quick": 4, "thorough": 16}
 G = 1.0 / 64.0
@@ -122,14 +122,23 @@ class Shared:
         self.policies = []
         for p in spec["policies"]:
             cls = AsyncRetry if p["async"] else Retry
+            kind = p.get("kind", "retry")
+            if kind == "rp":
+                cls = AsyncRetryPolicy if p["async"] else RetryPolicy
             hint = p.get("hint", "bare")
             klass = EC[p.get("klass", "TRANSIENT")]
             if hint == "bare":
                 clf = (lambda k: (lambda e: k))(klass)
             else:
                 clf = (lambda k, h: (lambda e: Classification(klass=k, retry_after_s=h)))(klass, None if hint == "none" else float(hint))
-            self.policies.append(cls(classifier=clf, result_classifier=(lambda c: (lambda r: c(r) if r == "bad" else None))(clf), strategy=(lambda d: (lambda c: d))(p["delay"]), budget=self.budget,
-                                     max_attempts=p["max_attempts"], deadline_s=100000.0, max_unknown_attempts=None))
+            late = p.get("attach") == "attr"  # the shared budget is attached by attribute assignment after construction
+            pol = cls(classifier=clf, result_classifier=(lambda c: (lambda r: c(r) if r == "bad" else None))(clf), strategy=(lambda d: (lambda c: d))(p["delay"]), budget=None if late else self.budget,
+                      max_attempts=p["max_attempts"], deadline_s=p.get("deadline", 100000.0), max_unknown_attempts=None)
+            if late:
+                pol.budget = self.budget
+            if kind == "policy":
+                pol = (AsyncPolicy if p["async"] else Policy)(retry=pol)
+            self.policies.append(pol)
 
     def metric(self, cid):
         def on_metric(event, attempt, sleep_s, tags):
@@ -166,16 +175,18 @@ def run_shared(ctx, spec, rng, viol):
             return body
 
         def mk_sleeper(cid, is_async):
+            early = calls[cid].get("early_sleeper")  # a sleeper that comes back after half the delay (woken up, coarse timer)
+
             if is_async:
                 async def asl(s):
                     await env.Suspend("sleep")
                     sh.cur = cid
-                    world.t += s
+                    world.t += s / 2 if early else s
 
                 return asl
 
             def sl(s):
-                world.t += s
+                world.t += s / 2 if early else s
 
             return sl
 
@@ -308,9 +319,10 @@ def gen_shared(rng):
     w = rng.choice([1.0, 2.0, 10.0])
     npol = rng.randint(2, 4)
     pols = [{"async": rng.random() < 0.5, "delay": rng.choice([0.0, G, w / 4, w / 2, w - G, w, w + G]), "max_attempts": rng.randint(2, 5),
-             "hint": rng.choice(["bare", "bare", "none", "0.0", "0.5", "30.0"]), "klass": rng.choice(["TRANSIENT", "RATE_LIMIT", "SERVER_ERROR", "UNKNOWN", "CONCURRENCY"])} for _ in range(npol)]
+             "hint": rng.choice(["bare", "bare", "none", "0.0", "0.5", "30.0"]), "klass": rng.choice(["TRANSIENT", "RATE_LIMIT", "SERVER_ERROR", "UNKNOWN", "CONCURRENCY"]),
+             "kind": rng.choice(["retry", "retry", "rp", "policy"]), "attach": rng.choice(["ctor", "ctor", "attr"]), "deadline": rng.choice([100000.0, 100000.0, w, 2 * w, w / 2])} for _ in range(npol)]
     calls = [{"policy": rng.randrange(npol), "gap": rng.choice([0.0, 0.0, G, w / 2, w - G, w, w + G]), "dur": rng.choice([0.0, G, w / 4]), "batch": rng.randint(1, 3), "by_result": rng.random() < 0.3,
-              "abort_at": rng.randint(0, 6) if rng.random() < 0.25 else None} for _ in range(rng.randint(3, 10))]
+              "abort_at": rng.randint(0, 6) if rng.random() < 0.25 else None, "early_sleeper": rng.random() < 0.3} for _ in range(rng.randint(3, 10))]
     return {"max": mx, "window": w, "policies": pols, "calls": calls, "falsy": rng.random() < 0.25}
 
 
